@@ -48,13 +48,13 @@ Dedup(sq, acc) == IF sq = << >> THEN acc
 RSeqAll  == Dedup(RSeqBase \o << Jit(7, 0, 1, 16), Jit(8, 1, 2, 13), Jit(9, 2, 4, 10), Jit(10, 0, 3, 17) >>, << >>)
 
 \* Hertz: for non-integer alpha the law is real only for r < sigma; r = sigma itself is
-\* excluded where the documented s'' has no value there (singular for alpha < 2, 0^0 for
-\* alpha = 2) and for non-integer alpha; for an integer alpha >= 3 the documented forms give
-\* s' = s'' = 0 at contact (0^(alpha-1), 0^(alpha-2) with positive integer exponents), asserted
+\* excluded: it is the edge of the support of the law (s'' is singular there for alpha < 2,
+\* 0^0 for alpha = 2, and a form such as u^alpha / u - equal to u^(alpha-1) everywhere else -
+\* has no value there), so contact is a boundary tie and never asserted; distances on both
+\* sides of sigma are in the grid (beyond contact for integer alpha)
 RSeq(m, p) ==
   IF m # "harmonic_hertz" THEN RSeqAll
-  ELSE SelectSeq(RSeqAll, LAMBDA r : /\ (REq(r, p.sigma) => IsInt(p.alpha) /\ p.alpha[1] >= 3)
-                                     /\ (IsInt(p.alpha) \/ RLt(r, p.sigma)))
+  ELSE SelectSeq(RSeqAll, LAMBDA r : ~REq(r, p.sigma) /\ (IsInt(p.alpha) \/ RLt(r, p.sigma)))
 
 \* parameter points.  Every point carries n, A and alpha (the selector must ignore the
 \* ones the requested model does not use).  Hertz: the documented cut-off is sigma; with
@@ -74,7 +74,7 @@ ParsOf(m, sh) ==
 \* ---- boundary values of the documented domain (added to the product grid above) ----
 \* The property quantifies over every energy scale and prefactor: eps and A are arbitrary reals,
 \* including 0 (all three derivatives vanish identically) and negative values (the sign of every
-\* member flips); a cut-off exactly at sigma; (Hertz at contact: see RSeq).  Only values for which
+\* member flips); a cut-off exactly at sigma.  (Hertz exactly at contact: a tie, see RSeq.)  Only values for which
 \* the documented formulas define the triple are listed.
 ZeroNeg == {<<0, 1>>, <<0 - 3, 4>>}
 EdgePars(m, sh) ==
@@ -145,13 +145,14 @@ InvDomain  == /\ RLt(RZero, par.sigma) /\ RLt(RZero, par.rc)
               /\ \A q \in Range(RSeq(model, par)) : RLt(RZero, q)
               /\ (model = "harmonic_hertz" /\ shift => REq(par.rc, par.sigma))
 \* the boundary values are in the scope of every run: A = 0, A < 0 (selector and method), eps = 0, eps < 0,
-\* r_c = sigma, and Hertz exactly at contact for an integer exponent
+\* r_c = sigma, and Hertz on both sides of contact
 InvEdges   == /\ \E p \in AllPars("inverse_power_law", shift) : p.A[1] = 0
               /\ \E p \in AllPars("inverse_power_law", shift) : p.A[1] < 0
               /\ \A m \in Models : (\E p \in AllPars(m, shift) : p.eps[1] = 0) /\ (\E p \in AllPars(m, shift) : p.eps[1] < 0)
               /\ \E p \in AllPars("lennard_jones", shift) : REq(p.rc, p.sigma)
               /\ \E p \in AllPars("harmonic_hertz", shift) :
-                    \E r \in Range(RSeq("harmonic_hertz", p)) : REq(r, p.sigma)
+                    /\ \E r \in Range(RSeq("harmonic_hertz", p)) : RLt(r, p.sigma)
+                    /\ \E r \in Range(RSeq("harmonic_hertz", p)) : RLt(p.sigma, r)
 
 \* ---- emission (direction A) ----
 \* the derivative terms depend on (model, shift) only: they are printed with the lead
